@@ -663,7 +663,26 @@ fn digits(r: &mut Rng, n: usize) -> String {
 }
 
 /// A well-formed literal, with the rounding position and exponent at interesting places.
+/// A literal of more than 34 digits in the subnormal range whose digits sit at a tie of the FINAL quantum: j digits survive
+/// (0 ≤ j ≤ 33), the remaining digits of the 34-digit prefix are 4999…9 / 5000…0, and what follows the 34th digit is a small
+/// tail — so that rounding once at the final quantum and rounding first to 34 digits differ (double-rounding hazards, and the
+/// sticky-digit logic of the long-literal path).
+pub fn subnormal_double_rounding_literal(r: &mut Rng) -> String {
+    let j = r.below(34) as usize;
+    let mut ds = if j > 0 { let mut d = digits(r, j); if d.starts_with('0') { d.replace_range(0..1, "1"); } d } else { String::new() };
+    let fill = 34 - j;
+    let pat = match r.below(4) { 0 | 1 => format!("4{}", "9".repeat(fill - 1)), 2 => format!("5{}", "0".repeat(fill - 1)), _ => format!("{}{}", if r.chance(1, 2) { "0" } else { "9" }, "9".repeat(fill - 1)) };
+    ds.push_str(&pat);
+    ds.push_str(*r.pick(&["1", "5", "9", "0", "01", "50", "49", "0000000001", "99999"]));
+    let nd = ds.len() as i64;
+    // leading digit at 10^(−6177 + j): adjusted exponent = exp + nd − 1
+    let adj = -6177 + j as i64 + *r.pick(&[0i64, 0, 0, -1, 1]);
+    let exp = adj - nd + 1;
+    format!("{}{}e{}", *r.pick(&["", "-", "+"]), ds, exp)
+}
+
 pub fn literal(r: &mut Rng) -> String {
+    if r.chance(1, 12) { return subnormal_double_rounding_literal(r); }
     let mut s = String::new();
     match r.below(3) { 0 => s.push('+'), 1 => s.push('-'), _ => {} }
     let total = match r.below(8) {
